@@ -4,7 +4,19 @@
    before the components that use it.) *)
 open Dcore
 
-let n_of_string (s : string) : M.n = n_of_int (int_of_string s)
+(* decimal numbers beyond OCaml's 63-bit int (usize::MAX in synthetic trees): halve the digit string *)
+let big_n_of_string (s : string) : M.n =
+  let d = Array.init (String.length s) (fun i -> Char.code s.[i] - 48) in
+  let is_zero () = Array.for_all (fun x -> x = 0) d in
+  let halve () = let r = ref 0 in
+    Array.iteri (fun i x -> let v = !r * 10 + x in d.(i) <- v / 2; r := v mod 2) d; !r in
+  let rec bits () = if is_zero () then [] else let b = halve () in b :: bits () in
+  let rec pos = function
+    | [] -> failwith "zero" | [_] -> M.XH
+    | b :: r -> if b = 1 then M.XI (pos r) else M.XO (pos r) in
+  match bits () with [] -> M.N0 | l -> M.Npos (pos l)
+let n_of_string (s : string) : M.n =
+  match int_of_string_opt s with Some i -> n_of_int i | None -> big_n_of_string s
 let bool_of_tok s = s = "1"
 
 exception Tree_error of string
